@@ -52,6 +52,7 @@ type Options struct {
 	MaxSilences                 int
 	MaxSilenceSizeBytes         int
 	GetConcurrency              int
+	HTTPTimeout                 time.Duration // --web.timeout (0 = none)
 
 	// Cluster simulation (nil = single instance).
 	WaitFunc func() time.Duration
@@ -306,6 +307,7 @@ func Start(o Options) (*Instance, error) {
 	ao.MaxSilences = o.MaxSilences
 	ao.MaxSilenceSizeBytes = o.MaxSilenceSizeBytes
 	ao.GetConcurrency = o.GetConcurrency
+	ao.HTTPTimeout = o.HTTPTimeout
 	ao.WebConfig = &web.FlagConfig{WebListenAddresses: &addrs, WebConfigFile: &empty}
 	ao.ExternalURL = "http://am.example:9093"
 	ao.Logger = discardLogger(o.Debug)
